@@ -277,13 +277,23 @@ def run(tier, v):
     h = vlib.build_harness(["c17"])
     mdir = os.path.join(vlib.scratch(), "c17mbt")
     _write_ndjson(os.path.join(mdir, "cases.ndjson"), cases)
-    s = vlib.run_driver(h, "c17_mbt", mdir, {"cases": os.path.join(mdir, "cases.ndjson"), "shards": 16, "par": 40}, timeout=2400)
-    infos = _infos(mdir)
+    # batches: the harness processes keep some memory per case (leaked TrzszFilter.wrapOutput
+    # goroutines, garbage of the code's trace log); a batch ends, its processes exit
+    infos, mdirs, nev = [], [], 0
+    B = 5000
+    for b0 in range(0, len(cases), B):
+        bd = os.path.join(mdir, "b%d" % (b0 // B))
+        _write_ndjson(os.path.join(bd, "cases.ndjson"), cases[b0:b0 + B])
+        s = vlib.run_driver(h, "c17_mbt", bd, {"cases": os.path.join(bd, "cases.ndjson"), "shards": 8, "par": 32, "memlimit_mb": 300}, timeout=2400)
+        infos += _infos(bd)
+        mdirs.append(bd)
+        nev += s["events"]
+    s = {"events": nev}
     if len(infos) != len(cases):
         raise vlib.Infra("c17_mbt: %d cases, %d results" % (len(cases), len(infos)))
     _side_checks("mbt", infos, v, cov)
     stage("mbt_replay")
-    files = _run_files(mdir, 8)
+    files = _run_files(mdirs, 8)
     _judge("mbt", "TunnelTrace.cfg", files, v, lambda rid: byid.get(rid), cov, h)
     stage("mbt_validate")
     cov["mbt_cases_replayed"] = len(cases)
@@ -400,7 +410,7 @@ def run(tier, v):
     stage("selftest")
     # ---- 3. loopback TCP and one relay hop
     tdir = os.path.join(vlib.scratch(), "c17tcp")
-    ts = vlib.run_driver(h, "c17_tcp", tdir, {"runs": 400 if quick else 4000, "shards": 8, "par": 24}, timeout=2400)
+    ts = vlib.run_driver(h, "c17_tcp", tdir, {"runs": 400 if quick else 4000, "shards": 8, "par": 24, "memlimit_mb": 300}, timeout=2400)
     tinfos = _infos(tdir)
     _side_checks("tcp", tinfos, v, cov)
     plans = {i["id"]: i.get("plan") for i in tinfos}
